@@ -68,6 +68,10 @@ def run(ck):
             add(i, "V3", m["proof"], [(m["pis"][0] + 1) % R] + m["pis"][1:], "public input changed")
             add(i, "V3", m["proof"], m["pis"][:-1], "public input vector truncated")
             add(i, "V3", m["proof"], list(reversed(m["pis"])), "public inputs reversed")
+        # surplus public inputs after the genuine ones (also for circuits without any)
+        add(i, "V3", m["proof"], m["pis"] + [0], "public input vector extended by a zero")
+        add(i, "V3", m["proof"], m["pis"] + [rng.scalar()], "public input vector extended by a value")
+        add(i, "V2", m["proof"], m["pis"] + [rng.scalar(), 0], "public input vector extended (V2)")
     base = mat[0]
     pb = base["proof"]
     nflips = 700 if quick else 8064
@@ -128,7 +132,7 @@ def run(ck):
                      {"failing_input_found": bool(found), "correspondence": "transcript tie (challenges of Proof::verify vs Protocol/RefVerifier.v)", "challenge": first, "proof_hex": (found or b).hex(), "pis": [hx(p) for p in pis], "circuit": cs[k]},
                      key="transcript:" + first)
     return ck.finish(level="proof",
-        rule="(verifier, proof, public inputs, version) triples: honest proofs of all circuits, stored genuine V2 proofs (corpus) under V2 / V3 / changed PI, honest V3 proofs under V2, under verifiers of other circuits, with changed/truncated/reversed public inputs; single-bit flips of the 1008 proof bytes (quick: 700 sampled, thorough: all 8064); every commitment and evaluation replaced by another valid element (other proof's, neighbour, identity/generator, zero/one); degenerate proof. Real Verifier::verify_with_version vs the extracted Gallina reference verifier (own Keccak/STROBE/Merlin, own BLS12-381 G1, exponent-level pairing check with the scripted SRS secret); derived challenges compared one by one",
+        rule="(verifier, proof, public inputs, version) triples: honest proofs of all circuits, stored genuine V2 proofs (corpus) under V2 / V3 / changed PI, honest V3 proofs under V2, under verifiers of other circuits, with changed/truncated/reversed/extended public inputs; single-bit flips of the 1008 proof bytes (quick: 700 sampled, thorough: all 8064); every commitment and evaluation replaced by another valid element (other proof's, neighbour, identity/generator, zero/one); degenerate proof. Real Verifier::verify_with_version vs the extracted Gallina reference verifier (own Keccak/STROBE/Merlin, own BLS12-381 G1, exponent-level pairing check with the scripted SRS secret); derived challenges compared one by one",
         assumptions=["Keccak-f modelled as a function (no collision/randomness claim)", "pairing bilinear and non-degenerate: e(A, x h) e(B, h) = 1 <=> x A + B = O", "Protocol/G1.v is an unverified executable reference: a bug there shows as a disagreement on the unchanged tree",
                      "V1 (legacy) equation is not modelled"],
         checker_cmd=proofgate.CHECKER_CMD, trusted_base=proofgate.TRUSTED)
